@@ -655,6 +655,7 @@ func (c *FuncCtx) evalSpecAt(st *State, e ast.Expr, pos token.Pos, extra map[str
 }
 
 type loopInfo struct {
+	entry   *State // state on entry to the loop (before the havoc)
 	ord     int
 	node    ast.Node
 	pos     token.Pos
@@ -664,6 +665,12 @@ type loopInfo struct {
 }
 
 func (c *FuncCtx) checkInv(st *State, li *loopInfo, inv []*Clause, kind string) {
+	if kind == "init" && li.entry == nil {
+		li.entry = st.clone()
+	}
+	saved := c.loopEntry
+	c.loopEntry = li.entry
+	defer func() { c.loopEntry = saved }()
 	for i, cl := range inv {
 		v := c.evalSpecAt(st, cl.Expr, li.pos, li.extra)
 		c.oblige(st, kind, fmt.Sprintf("loop%d.%s%d", li.ord, kind, i+1), li.pos, v.S, cl.Tags, "invariant "+cl.Text)
@@ -671,6 +678,9 @@ func (c *FuncCtx) checkInv(st *State, li *loopInfo, inv []*Clause, kind string) 
 }
 
 func (c *FuncCtx) assumeInv(st *State, li *loopInfo, inv []*Clause) {
+	saved := c.loopEntry
+	c.loopEntry = li.entry
+	defer func() { c.loopEntry = saved }()
 	for _, cl := range inv {
 		v := c.evalSpecAt(st, cl.Expr, li.pos, li.extra)
 		st.assume(v.S)
